@@ -234,6 +234,17 @@ Theorem C18_ciq_interleaved_broadcast_refuted : forall (F : rcfType),
     \sum_(j < n) ciq_root (RA F) res Q B w sh b i j * rd (RA F) z ((b * n + j) * k + t).
 Proof. exact: ciq_interleave_refuted. Qed.
 
+(* The last step of the branch multiplies every shifted solve by K.  Replacing that matmul by `s x - b` is correct exactly
+   when x solves (s I - K) x = b: true for an exact un-preconditioned solve, not for an arbitrary x (e.g. the iterate of a
+   preconditioned MINRES in its preconditioned geometry) — witness K = [1], x = b = [1], s = 1. *)
+Theorem C18_ciq_shortcut_iff : forall (F : rcfType) n (K : 'M[F]_n) (x b : 'cV[F]_n) (s : F),
+  (K *m x == s *: x - b) = ((s%:M - K) *m x == b).
+Proof. move=> F n K x b s; exact: ciq_shortcut_iff. Qed.
+
+Theorem C18_ciq_shortcut_needs_exact_solve : forall (F : rcfType),
+  exists (K : 'M[F]_1) (x b : 'cV[F]_1) (s : F), K *m x != s *: x - b.
+Proof. exact: ciq_shortcut_refuted. Qed.
+
 (* Histories.  The generic sampler reads the memoize entry 'root_decomposition'.  Its writers are root_decomposition()
    itself (only when the entry is absent) and _root_inv_decomposition (overwrites; stores `roots`, or `roots[0]` when the
    initial vectors have more than one column).  For EVERY sequence of such calls (and arbitrary other calls in between),
